@@ -26,7 +26,7 @@ OUT = {'s': 0x0000, 'w': 0xB000, 'f': 0xA700}
 
 
 def domain(tier):
-    return {'max_n': 5 if tier == 'thorough' else 4, 'max_pending': 2, 'max_stores': 3}
+    return {'max_n': 6 if tier == 'thorough' else 4, 'max_pending': 2 if tier == 'quick' else 3, 'max_stores': 3 if tier == 'quick' else 4}
 
 
 def shuffles(a, b):
@@ -44,14 +44,14 @@ def shuffles(a, b):
 
 
 def cases(tier, seed):
-    maxn = 5 if tier == 'thorough' else 4
+    maxn = 6 if tier == 'thorough' else 4
     for n in range(maxn + 1):
         for vec in itertools.product('swf', repeat=n):
             for mid, pc in (((1, 1), (65535, 255), (256, 3)) if n <= 2 else ((7, 5),)):
                 yield {'part': 'move', 'n': n, 'vec': ''.join(vec), 'mid': mid, 'pc': pc, 'dest': True}
     yield {'part': 'move', 'n': 0, 'vec': '', 'mid': 9, 'pc': 1, 'dest': False}
-    for p in range(3):
-        for s in range(4):
+    for p in range(3 if tier == 'quick' else 4):
+        for s in range(4 if tier == 'quick' else 5):
             for order in shuffles(['P'] * p, ['S'] * s):
                 vecs = [''.join(v) for v in itertools.product('swe', repeat=s)]
                 if tier == 'quick' and s == 3:
